@@ -8998,10 +8998,11 @@ func init() { registerExtra("C12", extraC12StrictAllLevels) }
 func extraC12StrictAllLevels(c *Ctx, r *Report) {
 	r.Rule("C12-R14", "no type reachable from the request type that TransformRequest decodes under DisallowUnknownFields implements json.Unmarshaler / encoding.TextUnmarshaler with a decoder of its own that is not strict too: encoding/json hands the raw bytes of such a value to the method, and the outer decoder's DisallowUnknownFields does not apply inside it — unknown keys at that level would be accepted and dropped instead of answered with 400", 3)
 	var root types.Type
-	for _, f := range c.Funcs {
-		if !strings.Contains(fnPkgPath(f), "/adapter/translator/anthropic") || f.Name() != "TransformRequest" {
+	for _, f0 := range c.Funcs {
+		if !strings.Contains(fnPkgPath(f0), "/adapter/translator/anthropic") || f0.Name() != "TransformRequest" {
 			continue
 		}
+		for _, f := range withHelpers(f0, 2) {
 		eachInstr(f, func(in ssa.Instruction) {
 			cc := getCall(in)
 			if cc == nil {
@@ -9016,6 +9017,7 @@ func extraC12StrictAllLevels(c *Ctx, r *Report) {
 				root = deref(v.Type())
 			}
 		})
+		}
 	}
 	if root == nil {
 		r.Unresolved("C12-R14", "the type TransformRequest decodes the request into")
@@ -10842,82 +10844,108 @@ func extraC17ProxyRouteFlag(c *Ctx, r *Report) {
 		r.Unresolved("C17-R14", "router.(*RouteRegistry).RegisterProxyRoute")
 		return
 	}
-	// flagReaches(g, i): parameter i of g (a bool) ends up in RouteInfo.IsProxy — stored there by g, or handed on to a
-	// function of the package for which the same holds (a construction helper such as newRouteInfo)
+	// abstract evaluation: the values RouteInfo.IsProxy can take in the records built on behalf of RegisterProxyRoute —
+	// in the function itself and in every function of the package it calls, with bool parameters standing for the
+	// arguments of the call that is being followed. A RouteInfo literal that never sets the field has it false.
 	key := fname(f) + ":registers-with-IsProxy-true"
-	n, bad := 0, token.NoPos
-	memoFR := map[string]bool{}
-	var flagReaches func(g *ssa.Function, i int, d int) bool
-	flagReaches = func(g *ssa.Function, i int, d int) bool {
-		k := fmt.Sprintf("%p/%d", g, i)
-		if v, ok := memoFR[k]; ok {
-			return v
+	type tv int // 1 true, 0 false, -1 unknown
+	var vals []tv
+	var where []token.Pos
+	var eval func(g *ssa.Function, env map[*ssa.Parameter]tv, d int, seen map[*ssa.Function]bool)
+	eval = func(g *ssa.Function, env map[*ssa.Parameter]tv, d int, seen map[*ssa.Function]bool) {
+		if g == nil || g.Blocks == nil || d == 0 || seen[g] {
+			return
 		}
-		memoFR[k] = false
-		if g == nil || g.Blocks == nil || d == 0 || i >= len(g.Params) {
-			return false
-		}
-		p := ssa.Value(g.Params[i])
-		found := false
-		eachInstr(g, func(x ssa.Instruction) {
-			if st, ok := x.(*ssa.Store); ok && st.Val == p && isField(st.Addr, "internal/router", "RouteInfo", "IsProxy") {
-				found = true
+		seen[g] = true
+		defer delete(seen, g)
+		valueOf := func(v ssa.Value) tv {
+			if k, ok := v.(*ssa.Const); ok && k.Value != nil && k.Value.Kind() == constant.Bool {
+				if constant.BoolVal(k.Value) {
+					return 1
+				}
+				return 0
 			}
-			if cc := getCall(x); cc != nil {
-				if sc := cc.StaticCallee(); sc != nil && sc.Pkg == f.Pkg && sc != g {
-					for j, a := range cc.Args {
-						if a == p && flagReaches(sc, j, d-1) {
-							found = true
+			if p, ok := v.(*ssa.Parameter); ok {
+				if x, bound := env[p]; bound {
+					return x
+				}
+			}
+			return -1
+		}
+		literals := map[*ssa.Alloc]bool{}
+		eachInstr(g, func(in ssa.Instruction) {
+			switch x := in.(type) {
+			case *ssa.Alloc:
+				if isNamed(deref(x.Type()), "internal/router", "RouteInfo") {
+					literals[x] = false
+				}
+			}
+		})
+		eachInstr(g, func(in ssa.Instruction) {
+			switch x := in.(type) {
+			case *ssa.Store:
+				if isField(x.Addr, "internal/router", "RouteInfo", "IsProxy") {
+					vals = append(vals, valueOf(x.Val))
+					where = append(where, in.Pos())
+					if fa, ok := x.Addr.(*ssa.FieldAddr); ok {
+						if al, ok := fa.X.(*ssa.Alloc); ok {
+							literals[al] = true
+						}
+					}
+				}
+				// a whole-record copy into a local (info := param) is not a literal of this function
+				if al, ok := x.Addr.(*ssa.Alloc); ok {
+					if _, tracked := literals[al]; tracked {
+						if _, isConst := x.Val.(*ssa.Const); !isConst {
+							literals[al] = true
 						}
 					}
 				}
 			}
-		})
-		memoFR[k] = found
-		return found
-	}
-	var check func(g *ssa.Function, d int, viaHelper bool)
-	check = func(g *ssa.Function, d int, viaHelper bool) {
-		if d == 0 {
-			return
-		}
-		eachInstr(g, func(in ssa.Instruction) {
-			cc := getCall(in)
-			if cc == nil {
-				return
-			}
-			sc := cc.StaticCallee()
-			if sc == nil || sc.Pkg != f.Pkg || sc.Blocks == nil {
-				return
-			}
-			hasFlag := false
-			for i, p := range sc.Params {
-				if b, ok := p.Type().Underlying().(*types.Basic); !ok || b.Kind() != types.Bool || i >= len(cc.Args) || !flagReaches(sc, i, 3) {
-					continue
-				}
-				hasFlag = true
-				n++
-				if k, ok := cc.Args[i].(*ssa.Const); !ok || k.Value == nil || !constant.BoolVal(k.Value) {
-					if _, isParam := cc.Args[i].(*ssa.Parameter); isParam && viaHelper {
-						continue // a helper handing on its own flag: judged at the helper's call site
+			if cc := getCall(in); cc != nil {
+				if sc := cc.StaticCallee(); sc != nil && sc.Pkg == f.Pkg && sc.Blocks != nil {
+					env2 := map[*ssa.Parameter]tv{}
+					for i, p := range sc.Params {
+						if b, ok := p.Type().Underlying().(*types.Basic); ok && b.Kind() == types.Bool && i < len(cc.Args) {
+							env2[p] = valueOf(cc.Args[i])
+						}
 					}
-					bad = in.Pos()
+					eval(sc, env2, d-1, seen)
 				}
 			}
-			if !hasFlag && sc.Signature.Recv() != nil && (strings.HasPrefix(sc.Name(), "Register") || strings.HasPrefix(sc.Name(), "register")) {
-				// a registration helper without a flag of its own: whatever it registers is judged by what it passes on
-				check(sc, d-1, true)
-			}
 		})
+		for al, set := range literals {
+			if !set && g != f {
+				// built without the field (a struct literal that leaves IsProxy out): false
+				used := false
+				for _, ref := range *al.Referrers() {
+					if _, isStore := ref.(*ssa.Store); !isStore {
+						used = true
+					}
+				}
+				if used {
+					vals = append(vals, 0)
+					where = append(where, al.Pos())
+				}
+			}
+		}
 	}
-	check(f, 2, false)
+	eval(f, map[*ssa.Parameter]tv{}, 4, map[*ssa.Function]bool{})
+	bad := token.NoPos
+	n := 0
+	for i, v := range vals {
+		n++
+		if v != 1 && !bad.IsValid() {
+			bad = where[i]
+		}
+	}
 	switch {
 	case bad.IsValid():
-		r.Bad("C17-R14", key, bad, "RegisterProxyRoute can register a route without the proxy flag (through the plain registration helper, which passes IsProxy=false): the rate limiter, the size check and the body limiter are not mounted on it")
+		r.Bad("C17-R14", key, bad, "RegisterProxyRoute can register a route without the proxy flag (a record built with IsProxy false or not provably true — e.g. through the plain registration helper): the rate limiter, the size check and the body limiter are not mounted on it")
 	case n > 0:
-		r.OK("C17-R14", key, f.Pos(), "every registration passes IsProxy=true")
+		r.OK("C17-R14", key, f.Pos(), fmt.Sprintf("every record built on its behalf (%d) has IsProxy=true", n))
 	default:
-		r.Undecided("C17-R14", key, f.Pos(), "no call into the route table found")
+		r.Undecided("C17-R14", key, f.Pos(), "no RouteInfo built on behalf of RegisterProxyRoute found")
 	}
 	addMutants(Mutant{Prop: "C17", Name: "methodless-proxy-routes-registered-plain", File: "internal/router/registry.go", Rule: "C17-R14",
 		Old: "	r.registerWithMethod(route, wrappedHandler, description, method, true)\n", New: "	if method == \"\" {\n		r.RegisterWithMethod(route, wrappedHandler, description, \"ANY\")\n		return\n	}\n	r.registerWithMethod(route, wrappedHandler, description, method, true)\n"})
@@ -11173,29 +11201,7 @@ func init() { registerExtra("C13", extraC13LineByLine) }
 
 func extraC13LineByLine(c *Ctx, r *Report) {
 	r.Rule("C13-R15", "the per-line handler of the stream translator is given each scanned line as the scanner returned it (bufio.Scanner.Text / Bytes of the current iteration) — not a payload assembled from several lines: one malformed `data:` line can then only lose itself. Joining adjacent data lines into one event makes a malformed line swallow the valid chunk next to it (a text delta, an argument fragment, the finish/usage chunk), and a backend that separates chunks with a single newline yields an empty message", 1)
-	// the per-line handler, structurally: the translator function that tests its string parameter for the "data:" prefix
-	var h *ssa.Function
-	for _, f := range c.Funcs {
-		if !strings.HasSuffix(fnPkgPath(f), pkgAnthropic) || f.Parent() != nil || f.Blocks == nil {
-			continue
-		}
-		eachInstr(f, func(in ssa.Instruction) {
-			cc := getCall(in)
-			if cc == nil || len(cc.Args) != 2 {
-				return
-			}
-			ci := describeCall(cc)
-			if ci.Pkg != "strings" || (ci.Name != "HasPrefix" && ci.Name != "CutPrefix" && ci.Name != "TrimPrefix") {
-				return
-			}
-			if _, isParam := cc.Args[0].(*ssa.Parameter); !isParam {
-				return
-			}
-			if k, ok := constString(cc.Args[1]); ok && strings.HasPrefix(k, "data:") && h == nil {
-				h = f
-			}
-		})
-	}
+	h := findLineHandler(c)
 	if h == nil {
 		r.Unresolved("C13-R15", "the stream translator's per-line handler (tests its string parameter for the data: prefix)")
 		return
@@ -11222,12 +11228,7 @@ func extraC13LineByLine(c *Ctx, r *Report) {
 			}
 			n++
 			key := fname(topParent(f)) + ":line-handed-over-as-scanned"
-			v := stripConv(arg)
-			ok := false
-			if call, isCall := v.(*ssa.Call); isCall {
-				ci := describeCall(&call.Call)
-				ok = ci.Pkg == "bufio" && ci.Recv == "Scanner" && (ci.Name == "Text" || ci.Name == "Bytes")
-			}
+			ok := scannedLine(c, arg, f, 3)
 			if ok {
 				r.OK("C13-R15", key, in.Pos(), "the handler receives scanner.Text() of the current line")
 			} else {
@@ -11550,4 +11551,92 @@ func extraRemoveTellsUnifier(c *Ctx, r *Report, rule string) {
 	}
 	addMutants(Mutant{Prop: rule[:3], Name: "removal-not-passed-to-the-unifier", File: "internal/adapter/registry/unified_memory_registry.go", Rule: rule,
 		Old: "	r.forgetEndpointInUnifierLocked(ctx, endpointURL)\n\n	return nil\n", New: "	return nil\n"})
+}
+
+
+// findLineHandler: the stream translator's per-line handler, structurally — the function of the Anthropic translator
+// package that tests its string parameter for the "data:" prefix.
+func findLineHandler(c *Ctx) *ssa.Function {
+	var h *ssa.Function
+	for _, f := range c.Funcs {
+		if !strings.HasSuffix(fnPkgPath(f), pkgAnthropic) || f.Parent() != nil || f.Blocks == nil {
+			continue
+		}
+		eachInstr(f, func(in ssa.Instruction) {
+			cc := getCall(in)
+			if cc == nil || len(cc.Args) != 2 {
+				return
+			}
+			ci := describeCall(cc)
+			if ci.Pkg != "strings" || (ci.Name != "HasPrefix" && ci.Name != "CutPrefix" && ci.Name != "TrimPrefix") {
+				return
+			}
+			if _, isParam := cc.Args[0].(*ssa.Parameter); !isParam {
+				return
+			}
+			if k, ok := constString(cc.Args[1]); ok && strings.HasPrefix(k, "data:") && h == nil {
+				h = f
+			}
+		})
+	}
+	return h
+}
+
+// scannedLine: v is bufio.Scanner.Text()/Bytes() of the current iteration, or the string parameter of a thin wrapper /
+// closure that is itself only ever handed such a line — by its static callers, or, for a function value (a handler
+// closure passed into the read loop), by the calls made through a func value of the same signature in the package.
+func scannedLine(c *Ctx, v ssa.Value, f *ssa.Function, depth int) bool {
+	v = stripConv(v)
+	if call, ok := v.(*ssa.Call); ok {
+		ci := describeCall(&call.Call)
+		return ci.Pkg == "bufio" && ci.Recv == "Scanner" && (ci.Name == "Text" || ci.Name == "Bytes")
+	}
+	p, ok := v.(*ssa.Parameter)
+	if !ok || depth == 0 {
+		return false
+	}
+	idx := -1
+	for i, q := range f.Params {
+		if q == p {
+			idx = i
+		}
+	}
+	if idx < 0 {
+		return false
+	}
+	sites, all := 0, true
+	for _, g := range c.Funcs {
+		if g.Pkg != f.Pkg {
+			continue
+		}
+		eachInstr(g, func(in ssa.Instruction) {
+			cc := getCall(in)
+			if cc == nil || cc.IsInvoke() {
+				return
+			}
+			pos := idx
+			switch {
+			case cc.StaticCallee() == f:
+			case cc.StaticCallee() == nil && f.Parent() != nil:
+				// a call through a func value: same signature as the closure
+				sig, ok := cc.Value.Type().Underlying().(*types.Signature)
+				if !ok || !types.Identical(sig, f.Signature) {
+					return
+				}
+			default:
+				return
+			}
+			if f.Signature.Recv() != nil && cc.StaticCallee() == f {
+				// method call in SSA form: receiver is Args[0], parameters line up with f.Params
+			}
+			if pos >= len(cc.Args) {
+				return
+			}
+			sites++
+			if !scannedLine(c, cc.Args[pos], g, depth-1) {
+				all = false
+			}
+		})
+	}
+	return sites > 0 && all
 }
